@@ -18,7 +18,7 @@ ASSUMPTIONS = ['oracle: the returned rotation maps both unit references onto bot
                'reference vectors and directions per estimator are those in mc/ref/filters.py (documentation of each class); OLEQ start vector: '
                'np.random.random is an owned seam returning each vector of a fixed menu',
                'OLEQ: tolerance max(1e-6, 1e-7 rho/(1-rho)) with rho the documented contraction ratio of its fixed-point iteration (stopping test 1e-8 on successive iterates)', 'accelerometer-only variants are judged on the gravity direction only']
-REQUIRED_CLASSES = ['S', 'Gp', 'int-samples', 'weights-option', 'default-references', 'option-spellings', 'tilt-only', 'pose:level', 'pose:inverted', 'pose:vertical', 'pose:half-turn']
+REQUIRED_CLASSES = ['S', 'Gp', 'int-samples', 'weights-option', 'default-references', 'option-spellings', 'batch-rows:per-row-magnitudes', 'tilt-only', 'pose:level', 'pose:inverted', 'pose:vertical', 'pose:half-turn']
 DIPS_Q = [-45.0, 0.0, 60.0]
 DIPS_T = [-80.0, -45.0, -10.0, 0.0, 1e-9, 10.0, 45.0, 60.0, 80.0]
 SCAL_Q = [(1.0, 1.0), (9.81, 45.0)]
@@ -232,6 +232,35 @@ def job_est(ctx, ename, k, lo, hi):
                         _judge(ctx, est, o if o is not None else np.zeros(1), g, m, a_, m_, sa, sm, tolb, f'{ename}.batch: row maps references onto measurements',
                                f'est={ename} att={lab} frame={frame} dip={dip:g} scale=({sa:g},{sm:g}) row={ri_} rows={order_name}')
                     ctx.cls('batch-rows')
+                # rows of ONE record with magnitudes that differ from row to row (the first row of unit length): every row still maps the references
+                # onto its own measurement directions (no record-wide shortcut decided on the first row)
+                seq = atts[:8]
+                if len(seq) >= 3:
+                    for pat_name, SA, SM in (('unit first row', [1.0, 9.81, 0.5, 1.0, 3.0, 0.02, 9.81, 1.0], [1.0, 45.0, 1.0, 0.3, 45.0, 2.0, 1e-3, 45.0]),
+                                             ('unit first acc only', [1.0, 2.0, 9.81, 0.7, 1.0, 5.0, 0.1, 9.81], [45.0, 1.0, 30.0, 45.0, 0.5, 1.0, 45.0, 2.0]),
+                                             ('unit first mag only', [9.81, 1.0, 0.3, 9.81, 2.0, 1.0, 4.0, 0.5], [1.0, 45.0, 0.2, 1.0, 45.0, 7.0, 1.0, 45.0])):
+                        meas = [est.measurements(rq.R(q), dip, frame, SA[i_], SM[i_]) for i_, (_, q) in enumerate(seq)]
+                        Acc = np.array([x[0] for x in meas]); Mag = np.array([x[1] for x in meas])
+                        if est.seeded:
+                            np.random.random = lambda n=4: OLEQ_STARTS[0].copy()
+                        try:
+                            out = est.batch(Acc.copy(), None if est.tilt_only else Mag.copy(), dip, frame)
+                        except Exception as ex:
+                            ctx.evals += 1
+                            ctx.fail(f'{ename}.batch: raises', f'est={ename} frame={frame} dip={dip:g} rows with per-row magnitudes ({pat_name})', f'{type(ex).__name__}: {ex}'[:160], 'N attitudes')
+                            continue
+                        finally:
+                            np.random.random = real_random
+                        out = list(out) if len(out) == len(seq) else [None] * len(seq)
+                        tolb = max(tol0, 1e-6)
+                        if est.seeded:
+                            rho = (0.5 + abs(float(g @ m))) / 1.5
+                            tolb = max(tolb, 1e-7 * rho / (1.0 - rho))
+                        for ri_, ((lab, q), o) in enumerate(zip(seq, out)):
+                            a_, m_ = meas[ri_]
+                            _judge(ctx, est, o if o is not None else np.zeros(1), g, m, a_, m_, SA[ri_], SM[ri_], tolb, f'{ename}.batch: row maps references onto measurements whatever the magnitudes of the OTHER rows',
+                                   f'est={ename} att={lab} frame={frame} dip={dip:g} row={ri_} per-row magnitudes ({pat_name})')
+                    ctx.cls('batch-rows:per-row-magnitudes')
     # integer-typed samples (raw sensor counts): the same attitudes with the measurements rounded to integers at a known scale,
     # as int64 / int16 arrays and nested lists of Python ints, through the N-sample and the one-sample entry points
     if atts:
